@@ -635,8 +635,14 @@ func propC01C02(t *rapid.T, prop string) { propC01C02Opts(t, prop, false, false)
 
 func propC01C02Opts(t *rapid.T, prop string, repeatNotify, sameName bool) {
 	sc := stats.New(prop)
-	w := newWorld(worldOpts{ttIntervalMs: rapid.SampledFrom([]int{1, 10000000}).Draw(t, "ttInterval"), bufSize: rapid.SampledFrom([]int{1, 4, 16}).Draw(t, "bufSize")})
+	wo := worldOpts{ttIntervalMs: rapid.SampledFrom([]int{1, 10000000}).Draw(t, "ttInterval"), bufSize: rapid.SampledFrom([]int{1, 4, 16}).Draw(t, "bufSize")}
+	if sameName {
+		// (only in the test with its own draw sequence) channel numbers in prefix relation: dml_1 / dml_10
+		wo.prefixRelatedChannelNumbers = rapid.Bool().Draw(t, "prefixRelatedChannelNumbers")
+	}
+	w := newWorld(wo)
 	defer w.close()
+	w.reverseTargetLists = wo.prefixRelatedChannelNumbers && rapid.Bool().Draw(t, "downstreamListsShardsInReverseOrder")
 	if os.Getenv("VERIF_TRACE") != "" { // debugging aid: trace the instrumented points of the pack handler
 		reader.SetVerifYield(func(point, ch string, src, out *api.ReplicateMsg) {
 			id := ""
@@ -668,6 +674,7 @@ func propC01C02Opts(t *rapid.T, prop string, repeatNotify, sameName bool) {
 	sc.ClassIf(gi.absentColl, "collection-created-by-event")
 	sc.ClassIf(gi.interleave, "registration-after-first-feed")
 	sc.ClassIf(sameName, "same-named-collections-in-different-databases")
+	sc.ClassIf(wo.prefixRelatedChannelNumbers, "channel-numbers-in-prefix-relation(dml_1/dml_10)")
 	sc.ClassIf(gi.endStamped, "beginTs=0-pack-with-all-messages-at-the-pack-end-time")
 	sc.ClassIf(gi.repeats > 0, "repeated-notification")
 	sc.ClassIf(gi.repeatConc > 0, "repeated-notification-concurrent")
